@@ -2,7 +2,9 @@ package main
 
 import (
 	"fmt"
+	"os"
 	"sort"
+	"strings"
 )
 
 func init() {
@@ -43,6 +45,30 @@ func init() {
 			for _, s := range t.Sinks(fn) {
 				for _, goal := range g.SinkGoals(s) {
 					fmt.Printf("== %s %s goal %s : %s  PROVEN=%v\n", FuncName(fn), p.InstrPos(s.Instr), goal.What, goal.P, g.Prove(goal.P, s.Instr))
+					for _, f := range g.AllFacts(goal.P, s.Instr) {
+						fmt.Printf("     fact %s   [%s]\n", f, f.Why)
+					}
+				}
+			}
+		}
+	}
+}
+
+func init() {
+	debugFuncs["allsinks"] = func(p *Prog) {
+		want := os.Getenv("DLINT_FUNC")
+		line := os.Getenv("DLINT_LINE")
+		for _, fn := range p.LibFuncs() {
+			if want != "" && !strings.Contains(FuncName(fn), want) {
+				continue
+			}
+			g := NewGuardCtx(p, fn, nil)
+			for _, s := range allSinks(fn) {
+				if line != "" && !strings.HasSuffix(p.InstrPos(s.Instr), ":"+line) {
+					continue
+				}
+				for _, goal := range g.SinkGoals(s) {
+					fmt.Printf("== %s %s %s goal %s : %s  PROVEN=%v\n", FuncName(fn), p.InstrPos(s.Instr), s.Kind, goal.What, goal.P, g.prove(goal.P, goal.NE, s.Instr, 0))
 					for _, f := range g.AllFacts(goal.P, s.Instr) {
 						fmt.Printf("     fact %s   [%s]\n", f, f.Why)
 					}
